@@ -113,7 +113,7 @@ pub fn c01(run: &mut Run) {
     for l in ["first_segment", "last_segment", "synthetic_0pct", "synthetic_100pct_hold", "easing_inherited", "override_active", "reverse_pass", "cycle_ge_1", "easing_on_kf_omitting_prop"] {
         run.require_label("c01_model", l, 0.01);
     }
-    crate::fuzzdrv::campaign(run, "fz_c01", 6_400_000);
+    crate::fuzzdrv::campaign(run, "fz_c01", 19_200_000);
     structural_exhaustive(run, "c01_structural_exhaustive", false);
     keyframe_counts(run);
 }
@@ -559,7 +559,7 @@ pub fn c02(run: &mut Run) {
         run.require_label("c02_exact", l, 0.05);
     }
     structural_exhaustive(run, "c02_structural_exhaustive", true);
-    crate::fuzzdrv::campaign(run, "fz_c02", 4_800_000);
+    crate::fuzzdrv::campaign(run, "fz_c02", 14_400_000);
 }
 
 // =============================================================================================
@@ -677,7 +677,7 @@ pub fn c08(run: &mut Run) {
         run.require_label("c08_sentinel", l, 0.05);
     }
     mv_core::c_animator::c08_animator(run);
-    crate::fuzzdrv::campaign(run, "fz_c08", 6_400_000);
+    crate::fuzzdrv::campaign(run, "fz_c08", 19_200_000);
 }
 
 // =============================================================================================
@@ -864,7 +864,7 @@ pub fn c09(run: &mut Run) {
     run.require_label("c09_script", "backwards_step", 0.3);
     run.require_label("c09_script", "clone_used_after_source_mutated", 0.1);
     run.require_label("c09_script", "two_start_with_on_one", 0.1);
-    crate::fuzzdrv::campaign(run, "fz_c09", 4_800_000);
+    crate::fuzzdrv::campaign(run, "fz_c09", 14_400_000);
 }
 
 /// The timeline's own 0 % values: per property the value of its first frame (type default 0 when
@@ -1056,7 +1056,7 @@ pub fn c10(run: &mut Run) {
     for l in ["upto_delay", "first_stretch", "first_pass_beyond_first_stretch", "reverse_pass", "later_cycle", "ended"] {
         run.require_label("c10_twin", l, 0.05);
     }
-    crate::fuzzdrv::campaign(run, "fz_c10", 4_800_000);
+    crate::fuzzdrv::campaign(run, "fz_c10", 14_400_000);
 }
 
 // =============================================================================================
@@ -1155,7 +1155,7 @@ pub fn c11(run: &mut Run) {
     );
     run.require_label("c11_permutation", "non_identity", 0.5);
     run.require_label("c11_permutation", "ge_4_keyframes", 0.3);
-    crate::fuzzdrv::campaign(run, "fz_c11", 4_800_000);
+    crate::fuzzdrv::campaign(run, "fz_c11", 14_400_000);
 }
 
 // =============================================================================================
@@ -1425,5 +1425,5 @@ pub fn c12(run: &mut Run) {
     for l in ["empty_list", "single", "ge_2_components", "shared_property_different_values", "disjoint_reordered", "infinite_component", "cycle_durations_agree", "boundary_repeat"] {
         run.require_label("c12_overlay", l, 0.02);
     }
-    crate::fuzzdrv::campaign(run, "fz_c12", 4_800_000);
+    crate::fuzzdrv::campaign(run, "fz_c12", 14_400_000);
 }
